@@ -1,8 +1,31 @@
-(* C13  Group-configuration verdicts.  (theorems are being added; see Lemmas/GroupLemmas) *)
+(* C13  Group-configuration verdicts follow the group semantics.  Property theorems only. *)
 From Coq Require Import List String ZArith.
-From Tealer Require Import Group.
+From Tealer Require Import LeafPrelude Syntax Analysis Domains Detect Group GroupLemmas.
 Import ListNotations.
-(* Transaction.relative_indexes is keyed by offset: setting a key twice keeps the later value *)
-Theorem C13_dict_set_twice : forall (k : Z) (a b : string), dict_set k b (dict_set k a []) = [(k, b)].
-Proof. intros; simpl; rewrite Z.eqb_refl; reflexivity. Qed.
-Print Assumptions C13_dict_set_twice.
+
+(* a transaction is reported iff it is eligible and neither its own contracts, nor a member reading it by the
+   configured absolute index, nor a member reading it by a configured offset excludes the value at every exit *)
+Theorem C13_verdict : forall funcs checks dtype vtypes group t,
+  txn_vulnerable funcs checks dtype vtypes group t = true <->
+  eligible dtype vtypes t /\ ~ own_cleared funcs checks t /\ ~ abs_cleared funcs checks group t /\ ~ rel_cleared funcs checks group t.
+Proof. exact vulnerable_iff. Qed.
+
+(* offset inversion: `other` is consulted with offset off for t exactly when other's configured relative index
+   off (the last entry for that transaction) points to t *)
+Theorem C13_offset_inversion : forall group t oid off, NoDup (map g_id group) ->
+  In (oid, off) (relative_accessors group t) <->
+  exists other, In other group /\ g_id other = oid /\ last_pointing (rel_dict other) (g_id t) off.
+Proof. exact relative_accessors_spec. Qed.
+
+(* one transaction running one logic-sig: reported iff some terminating block is unvalidated, i.e. the
+   single-contract criterion *)
+Theorem C13_single_logic_sig : forall funcs checks dtype vtypes t k f r,
+  g_logic_sig t = Some k -> g_application t = None -> nth_error funcs k = Some (f, r) ->
+  g_abs t = None -> relative_accessors [t] t = [] -> eligible dtype vtypes t ->
+  (txn_vulnerable funcs checks dtype vtypes [t] t = true <->
+   exists b, fn_leaf_block f b /\ validated_in_block r checks None b = false).
+Proof. exact single_logic_sig. Qed.
+
+Print Assumptions C13_verdict.
+Print Assumptions C13_offset_inversion.
+Print Assumptions C13_single_logic_sig.
